@@ -8,6 +8,8 @@ InlineTrans applied to a Hypothesis-chosen call x 3 inputs.
 Oracle: differential (interpreter with true by-reference argument binding
 decides, gfortran on PSyclone's written output confirms), as C05.
 """
+from hypothesis import strategies as st
+
 from vlib import difftrans as dt
 from vlib import gen_fortran as gf
 
@@ -70,7 +72,38 @@ def facts(name, otarget, orig_out, got):
     return out
 
 
-SPEC = {"inline": dict(make=_make, candidates=calls)}
+@st.composite
+def shadow_programs(draw, profile):
+    """gen_fortran program; in ~1/3 of the cases the caller's module USEs a
+    companion module (wildcard import, so the symbols stay unresolved in
+    PSyclone) and a helper declares a LOCAL with the name of one of that
+    module's variables - the 'inlined locals never capture caller
+    variables' class for module variables."""
+    import copy
+    prog = draw(gf.programs(profile))
+    subs = [h for h in prog.helpers if not h.is_function]
+    if not subs or draw(st.integers(0, 2)) != 0:
+        return prog
+    prog = copy.copy(prog)
+    prog.pre_modules = ["module mu@U@", "  implicit none",
+                        "  integer :: qcount = 3", "  real :: qvar = 1.5",
+                        "end module mu@U@"]
+    prog.use_lines = ["use mu@U@"]
+    hlp = copy.copy(draw(st.sampled_from(subs)))
+    name, typ, val = draw(st.sampled_from([("qcount", "int", "7"),
+                                           ("qvar", "real", "4.0")]))
+    hlp.locals = list(getattr(hlp, "locals", [])) + \
+        [gf.Var(name, typ, role="local")]
+    hlp.lines = [f"{name} = {val}"] + list(hlp.lines)
+    prog.helpers = [hlp if h.name == hlp.name else h for h in prog.helpers]
+    tail = ["qcount = qcount + 1", "k = k + qcount", "x = x + qvar"]
+    prog.body = list(prog.body) + tail
+    prog.features = set(prog.features) | {"module_var_shadowed_by_callee"}
+    return prog
+
+
+SPEC = {"inline": dict(make=_make, candidates=calls,
+                       programs=shadow_programs)}
 CHECK = dt.TransCheck(PROP, SPEC, PROFILE, facts=facts)
 
 CLASSIFIERS = {
